@@ -69,10 +69,27 @@ CaseOutcome prop_execute(const std::string & case_json) {
     if (closed_src) d_orig = dump_file(src);
     if (closed_src && d_orig.open_rc) { oc.fail("open", strf("closed original does not open: %d", d_orig.open_rc)); vfs::reset(); return oc; }
 
+    int32_t refused_rc = 0; (void) refused_rc;
     int32_t rc = jls_copy(src, "c17_dst.jls", nullptr, nullptr, nullptr, nullptr);
     if (rc) {
-        if (!closed_src) { oc.tags.push_back("copy_refused_unclosed"); vfs::reset(); return oc; }   // a damaged source may be refused (C03 judges readability)
-        oc.fail("copy_rc", strf("jls_copy of a closed file returned %d %s", rc, ec_name(rc))); vfs::reset(); return oc;
+        if (closed_src) { oc.fail("copy_rc", strf("jls_copy of a closed file returned %d %s", rc, ec_name(rc))); vfs::reset(); return oc; }
+        if (mode == "unclosed") {
+            // stopped at an API boundary, nothing torn: this is the "left unclosed" original the property names
+            oc.fail("copy_rc", strf("jls_copy of an original that was merely left unclosed returned %d %s", rc, ec_name(rc))); vfs::reset(); return oc;
+        }
+        // torn tail ("cut"): jls_copy salvages what precedes the torn chunk, closes the destination and reports IO / NOT_FOUND.
+        // The statement is about what reads back from the copy, not about the return code for a torn source, so the code is
+        // accepted - but the destination is judged like any other copy (it used to be skipped: 63 % of this mode).
+        refused_rc = rc;
+        oc.tags.push_back(strf("copy_of_torn_source_rc:%s", ec_name(rc)));
+        std::vector<uint8_t> probe_dst = vfs::get("c17_dst.jls");
+        if (probe_dst.size() < 64) {
+            Dump probe = dump_file(src);
+            if (!probe.open_rc) oc.fail("copy_refused_readable_source", strf("jls_copy returned %d %s and produced no file, but jls_rd_open opens (repairs) the same source", rc, ec_name(rc)));
+            else oc.tags.push_back("source_unreadable_for_reader_too");
+            vfs::reset(); return oc;
+        }
+        // fall through: judge the destination
     }
     std::vector<uint8_t> cb = vfs::get("c17_dst.jls");
     dec::File cf = dec::decode(cb);
